@@ -237,7 +237,10 @@ def check_call(op, method, ncall, d, region, fex, fam, v, out):
     if fam.kind == "const":
         slack = 2 * (max(neval, ncall) + 100) * 2.0 ** -53 * abs(ex)
         if not (abs(val - ex) <= slack):
-            out.append((f"{op}:constant-exact", f"{method}: constant integrand, result {val!r}, volume*constant = {ex!r} (error {abs(val-ex):.3g} > {slack:.3g})"))
+            # Vegas weights its iterations by 1/variance with the absolute floor TINY = 1e-30 for a vanishing variance estimate; the first
+            # iteration (uniform grid, exact on a constant) dominates only while (c V / calls)^2 is far above that floor (known finding K-C14-1)
+            region_tag = ":vegas-tiny-scale" if (method == "Vegas" and abs(ex) / max(neval, ncall, 1) < 1e-6) else ""
+            out.append((f"{op}:constant-exact{region_tag}", f"{method}: constant integrand, result {val!r}, volume*constant = {ex!r} (error {abs(val-ex):.3g} > {slack:.3g})"))
     elif fam.kind == "corner":
         if not math.isfinite(val) or val < 0.0 or val > abs(ex) * 1e6 + 1e-300:
             out.append((f"{op}:corner-finite", f"{method}: integrand supported in a corner, result {val!r} (exact {ex!r})"))
